@@ -156,7 +156,7 @@ func c11GenOpsL(r *core.Rand, ctx string, depth int, allowCmd, inLoop bool) []c1
 	}
 	var ops []c11Op
 	for i := 0; i < n; i++ {
-		kinds := []string{"trace", "trace", "getline", "getline-var", "getline-file", "getline-var-file", "exit", "exit-n", "assign", "if-nr", "if-v", "loop", "call", "trace", "dowhile", "forever", "set-field", "set-nf", "close"}
+		kinds := []string{"trace", "trace", "getline", "getline-var", "getline-file", "getline-var-file", "exit", "exit-n", "assign", "if-nr", "if-v", "loop", "call", "trace", "dowhile", "forever", "set-field", "set-nf", "close", "drain"}
 		if inLoop {
 			kinds = append(kinds, "break-if-v", "break-if-v")
 		}
@@ -325,14 +325,14 @@ func (c11Engine) Gen(r *core.Rand, tier string, i int) any {
 		sc.HasEnd = true
 		sc.End = c11GenOps(r, "end", 0, allowCmd)
 	}
-	for _, name := range []string{"f1", "f2", "f3", "g1", "g2", "1=x"} {
+	for _, name := range []string{"f1", "f2", "f3", "g1", "g2", "1=x", "/dev/stdin"} {
 		data := c11GenData(r)
 		sc.Files = append(sc.Files, c11File{Name: name, Data: data, D: genDelivery(r, len(data))})
 	}
 	sc.Stdin = c11GenData(r)
 	sc.StdinD = genDelivery(r, len(sc.Stdin))
 	if r.Chance(3, 4) {
-		ops := []string{"f1", "f2", "f3", "f1", "", "v=7", "v=3", "fmissing", "NR=10", "1=x"}
+		ops := []string{"f1", "f2", "f3", "f1", "", "v=7", "v=3", "fmissing", "NR=10", "1=x", "/dev/stdin"}
 		dash := false
 		for n := r.Range(1, 5); n > 0; n-- {
 			o := core.Pick(r, ops)
@@ -425,6 +425,8 @@ func (g *c11Gen) ops(ops []c11Op) string {
 			fmt.Fprintf(&sb, "if (v == %d) { %s} ", op.K, g.ops(op.Sub))
 		case "loop":
 			fmt.Fprintf(&sb, "for (i%d = 0; i%d < %d; i%d++) { %s} ", id, id, op.K, id, g.ops(op.Sub))
+		case "drain":
+			fmt.Fprintf(&sb, "while ((getline) > 0) dn++; trace(\"dr%d\", 0, %s); ", id, c11TraceArgs)
 		case "dowhile":
 			fmt.Fprintf(&sb, "do { %s} while (0); ", g.ops(op.Sub))
 		case "forever":
@@ -747,6 +749,15 @@ func (m *c11Model) run(ops []c11Op) c11Signal {
 			return sigExit
 		case "assign":
 			m.v = fmt.Sprint(op.K)
+		case "drain":
+			for {
+				rec, ok, isErr := m.nextMain()
+				if isErr || !ok {
+					break
+				}
+				m.setRec(rec)
+			}
+			m.emit(fmt.Sprintf("dr%d", id), 0)
 		case "set-field":
 			for len(m.fields) < op.K {
 				m.fields = append(m.fields, "")
